@@ -116,6 +116,9 @@ func (g *gen) sweep() []string {
 			}
 		}
 	}
+	ops = append(ops, g.faultCase(1, 0, true, 1, false, 6)...)
+	ops = append(ops, g.faultCase(0, 2, true, 2, true, 9)...)
+	ops = append(ops, g.faultCase(2, 1, false, 1, false, 12)...)
 	ops = append(ops, g.stallCase(0, 2, 10040, 60)...)
 	ops = append(ops, g.stallCase(1, 0, 10040, 60)...)
 	return ops
@@ -140,12 +143,43 @@ func (g *gen) stallCase(to, to2, n, tail int) []string {
 	return ops
 }
 
+// a write on the client's connection fails with a timeout error (once or a few
+// times in a row, possibly after half the packet) while later packets for the
+// same client are already queued: the session must either end (what the code
+// does: the client keeps an initial segment) or go on in order — never re-queue
+// the packet behind the others.  stalled: the failing write is the second one,
+// with everything else provably queued behind it.
+func (g *gen) faultCase(to, to2 int, stalled bool, n int, partial bool, k int) []string {
+	g.h.Count("case:write-fault")
+	g.h.Count(fmt.Sprintf("write-fault:stalled=%v,partial=%v", stalled, partial))
+	g.nreq = map[int]int{}
+	pb := 0
+	if partial {
+		pb = 1
+	}
+	ops := []string{"reset n=2 slow=1"}
+	if stalled {
+		ops = append(ops, "stall c=0")
+		ops = append(ops, fmt.Sprintf("req c=0 to=%d r=%d/P0x%d,r,P0x%d,p1", to, g.id(0), k, k/4))
+		ops = append(ops, fmt.Sprintf("fault c=0 n=%d partial=%d", n, pb), "resume c=0")
+	} else {
+		ops = append(ops, fmt.Sprintf("req c=0 to=%d r=%d/p0,r", to, g.id(0)))
+		ops = append(ops, fmt.Sprintf("fault c=0 n=%d partial=%d", n, pb))
+		ops = append(ops, fmt.Sprintf("req c=0 to=%d r=%d/P0x%d,r,P0x%d,p1", to, g.id(0), k, k/4))
+	}
+	ops = append(ops, fmt.Sprintf("req c=1 to=%d r=%d/p0,p1,r,p0,p1", to2, g.id(1)))
+	ops = append(ops, "go ms=5", "settle")
+	return ops
+}
+
 func (g *gen) genCase() []string {
 	r := g.h.R
 	g.nreq = map[int]int{}
 	x := r.Intn(100)
 	thorough := g.h.Thorough()
 	switch {
+	case x >= 97:
+		return g.faultCase(r.Intn(len(svcNames)), r.Intn(len(svcNames)), r.Intn(2) == 0, 1+r.Intn(3), r.Intn(2) == 0, 3+r.Intn(40))
 	case x < 2:
 		return g.stallCase(r.Intn(len(svcNames)), r.Intn(len(svcNames)), 10050+r.Intn(1500), r.Intn(200))
 	case x < 6:
